@@ -10,6 +10,7 @@ import (
 	"sync"
 	"time"
 
+	"github.com/jsightapi/jsight-api-go-library/catalog"
 	"github.com/jsightapi/jsight-api-go-library/core"
 	"github.com/jsightapi/jsight-api-go-library/kit"
 	sfs "github.com/jsightapi/jsight-schema-go-library/fs"
@@ -166,6 +167,50 @@ func cmdConc(line []byte, emit func(interface{})) {
 			rg.Wait()
 		}
 	}
+	// the rules of every schema node of every user type of one validated catalog looked up BY NAME (Rules.Get / Has) from
+	// many goroutines at once, the first by-name lookups this catalog ever sees: each gives what a lookup gives alone
+	// (the expectation comes from a second catalog built from the same bytes and read by one goroutine)
+	if c.Readers > 0 {
+		for i := range c.Cases {
+			if solo[i].Outcome != "ok" {
+				continue
+			}
+			rootPath := filepath.Join(tops[i], "proj", c.Cases[i].Root)
+			content, err := os.ReadFile(rootPath)
+			if err != nil {
+				continue
+			}
+			ref := core.NewJApiCore(sfs.NewFile(rootPath, content), core.WithFixedSeedForRegex())
+			cr := core.NewJApiCore(sfs.NewFile(rootPath, content), core.WithFixedSeedForRegex())
+			if ref.ValidateJAPI() != nil || cr.ValidateJAPI() != nil {
+				continue
+			}
+			want := ruleWalk(ref.Catalog(), nil)
+			if len(want) == 0 {
+				continue
+			}
+			start := make(chan struct{})
+			var rg sync.WaitGroup
+			for r := 0; r < c.Readers; r++ {
+				rg.Add(1)
+				go func(r int) {
+					defer rg.Done()
+					<-start
+					got := ruleWalk(cr.Catalog(), want)
+					mu.Lock()
+					o.Runs++
+					if d := firstDiff(strings.Join(want, "\n"), strings.Join(got, "\n")); d != "" && len(o.Diffs) < 5 {
+						b, _ := json.Marshal(map[string]interface{}{"case": c.Cases[i].ID, "reader": r, "solo": "ok", "concurrent": "rules looked up by name differ",
+							"json_diff": d, "readers": true, "rules": true})
+						o.Diffs = append(o.Diffs, string(b))
+					}
+					mu.Unlock()
+				}(r)
+			}
+			close(start)
+			rg.Wait()
+		}
+	}
 	if c.Writers > 0 {
 		for i := range c.Cases {
 			if solo[i].Outcome != "ok" || i >= 4 {
@@ -247,6 +292,50 @@ func cmdConc(line []byte, emit func(interface{})) {
 		}
 	}
 	emit(o)
+}
+
+// ruleWalk lists, for every schema node of every user type in document order, "type/path rule=value" for each rule of the
+// node. With keys == nil the rule names come from Rules.Each (no by-name lookup happens); otherwise the names are taken from
+// the lines of keys and every value is fetched with Rules.Get and confirmed with Rules.Has, plus one name that is absent.
+func ruleWalk(cat *catalog.Catalog, keys []string) []string {
+	var out []string
+	k := 0
+	var node func(path string, n *catalog.SchemaContentJSight)
+	node = func(path string, n *catalog.SchemaContentJSight) {
+		if n == nil {
+			return
+		}
+		if keys == nil {
+			if n.Rules != nil {
+				_ = n.Rules.Each(func(name string, v catalog.Rule) error {
+					out = append(out, path+" "+name+"="+v.ScalarValue+"/"+string(v.TokenType))
+					return nil
+				})
+			}
+		} else {
+			for k < len(keys) && strings.HasPrefix(keys[k], path+" ") {
+				name := keys[k][len(path)+1:]
+				if eq := strings.IndexByte(name, '='); eq >= 0 {
+					name = name[:eq]
+				}
+				v, ok := n.Rules.Get(name)
+				if !ok || !n.Rules.Has(name) || n.Rules.Has("no such rule") {
+					out = append(out, path+" "+name+" NOT FOUND")
+				} else {
+					out = append(out, path+" "+name+"="+v.ScalarValue+"/"+string(v.TokenType))
+				}
+				k++
+			}
+		}
+		for j, ch := range n.Children {
+			node(fmt.Sprintf("%s/%d", path, j), ch)
+		}
+	}
+	_ = cat.UserTypes.Each(func(name string, ut *catalog.UserType) error {
+		node(name, ut.Schema.ContentJSight)
+		return nil
+	})
+	return out
 }
 
 func firstDiff(a, b string) string {
